@@ -249,7 +249,7 @@ class Ctx:
             raise NoVerdict("driver %s replayed nothing" % name)
         return self.validate(name, module, trace, beh, cmd, racy=racy)
 
-    def repo_test_traces(self, name, pkgs, timeout=1500):
+    def repo_test_traces(self, name, pkgs, timeout=1500, envvar="VERIF_FSM_TRACE", decoder="fsmtrace", module="Trace_Table"):
         """run packages of the REPOSITORY'S OWN test suite with the hooks on and the state-machine trace enabled
         (VERIF_FSM_TRACE), decode the trace (vdrive fsmtrace) and validate it with Trace_Table. Whether the tests
         themselves pass is not looked at: only what their state machines did."""
@@ -258,7 +258,8 @@ class Ctx:
         shutil.copy(os.path.join(REPO, "go.mod"), os.path.join(self.sc, "repo.go.mod"))
         shutil.copy(os.path.join(REPO, "go.sum"), os.path.join(self.sc, "repo.go.sum"))
         t0 = time.time()
-        env = dict(GOENV, VERIF_FSM_TRACE=raw)
+        env = dict(GOENV)
+        env[envvar] = raw
         try:
             p = subprocess.run(["go", "test", "-tags", "verif", "-vet=off", "-count=1", "-modfile=" + os.path.join(self.sc, "repo.go.mod")] + pkgs,
                                cwd=REPO, env=env, stdout=subprocess.PIPE, stderr=subprocess.STDOUT, text=True, timeout=timeout)
@@ -268,7 +269,7 @@ class Ctx:
             raise NoVerdict("the repository's tests produced no state-machine trace:\n" + p.stdout[-3000:])
         log("(G) repository tests %s: %d raw events in %.1fs" % (" ".join(pkgs), sum(1 for _ in open(raw)), time.time() - t0))
         self.notes.setdefault("repository_test_packages_traced", []).extend(pkgs)
-        return self.gv(name, "Trace_Table", ["fsmtrace", "--in", raw])
+        return self.gv(name, module, [decoder, "--in", raw])
 
     # ------------------------------------------------------------ evidence
     def finish(self):
@@ -388,7 +389,8 @@ def c12(ctx):
 
 @check("C13")
 def c13(ctx):
-    ctx.assumptions += ["glob patterns are restricted to whole-segment '*' (the only form the callers use); listing order is not demanded (compared as sets / bags)",
+    ctx.assumptions += ["repository-test traces: packages of the existing suite run with the build tag verif and VERIF_KV_TRACE set; every kv.LFSM instance is followed from empty (or from the store it shows after RecoverFromSnapshot); whether the tests pass is not looked at",
+                        "glob patterns are restricted to whole-segment '*' (the only form the callers use); listing order is not demanded (compared as sets / bags)",
                         "dragonboat delivers the committed entries in order to LFSM.Update; the driver chooses the apply batches"]
     q = ctx.quick
     logs = ctx.design("MC_MetaKV", "MC_MetaKV_quick.cfg" if q else "MC_MetaKV_thorough.cfg", sample=400 if q else 4000)
@@ -398,7 +400,14 @@ def c13(ctx):
     if not ctx.gv("random-logs", "Trace_MetaKV", ["metakv", "--mode", "lfsm", "--seed", str(seed()), "--n", str(n), "--ops", str(ops)]):
         return
     n, ops = (5, 40) if q else (40, 120)
-    ctx.gv("raftstore", "Trace_MetaKV", ["metakv", "--mode", "raft", "--seed", str(seed()), "--n", str(n), "--ops", str(ops)])
+    if not ctx.gv("raftstore", "Trace_MetaKV", ["metakv", "--mode", "raft", "--seed", str(seed()), "--n", str(n), "--ops", str(ops)]):
+        return
+    # what the metadata state machines of the REPOSITORY'S OWN TESTS did (table managers, engines, replication managers of
+    # the existing suite): every Update call with its results, replayed in the specification
+    pkgs = ["./storage/kv/", "./storage/table/", "./storage/", "./replication/"]
+    if not q:
+        pkgs += ["./regattaserver/", "./replication/backup/"]
+    ctx.repo_test_traces("repository-test-traces", pkgs, envvar="VERIF_KV_TRACE", decoder="kvtrace", module="Trace_MetaKV")
 
 
 @check("C15")
